@@ -1,8 +1,10 @@
-(* executable wrappers comparing the C12 model (binary64 instance, digest function H := identity on byte
+(* (area histories, which execute the regenerated __getitem__, are in Model/C12_run_area.v so that everything here still
+   runs when the translation of the source breaks)
+   executable wrappers comparing the C12 model (binary64 instance, digest function H := identity on byte
    images, which is injective) with relations observed on the implementation *)
 From Coq Require Import ZArith Bool List PrimFloat.
 From PR Require Model.Grid Model.SliceArea Model.Stack.
-From PR Require Import Base.Num Base.F64 Base.Slice Base.ListX Model.HashEq Gen.GenC12 Model.C12_slice Model.C12_f32.
+From PR Require Import Base.Num Base.F64 Base.Slice Base.ListX Model.HashEq Model.C12_f32.
 Import ListNotations.
 Open Scope Z_scope.
 
@@ -57,46 +59,6 @@ Definition chk_key (pool : list geo) (c : key_case) : bool :=
   let '(s1, t1, k1, s2, t2, k2, rels) := c in
   let im := fun s t k => key_image (geo_image (pick pool s)) (geo_image (pick pool t)) k in
   forallb (Bool.eqb (img_eqb (im s1 t1 k1) (im s2 t2 k2))) rels.
-
-(* ---- histories on an area.  rt is pyproj's WKT round trip on the tokens of this case *)
-Definition lookup (tab : list (Z * Z)) (t : Z) : Z :=
-  match find (fun p => fst p =? t) tab with Some p => snd p | None => t end.
-
-Inductive aop := AHash | AEq (j : Z) (c12 c21 : bool) (e12 e21 : bool) | ASlice (ys xs : oslice) | ACopy.
-(* observed after each call: memo consistent, digest equal to the ORIGINAL area's, crs token, width, height, extent *)
-Definition aobs := (bool * bool * Z * Z * Z * (float * float * float * float))%type.
-
-Definition ext_eqb (a b : float * float * float * float) : bool := list_eqb same_bits (ext_list a) (ext_list b).
-
-Definition a_step (rt : Z -> Z) := step (harea float) (list (tok float)) (oslice * oslice) (area_image F64)
-                                        (fun c _ => c) (area_slice F64 rt) (area_copy rt).
-Definition a_op (p : aop) : op (harea float) (oslice * oslice) :=
-  match p with AHash => OHash | AEq _ _ _ _ _ => OEq (mk_harea 0 0 0 (0, 0, 0, 0)%float (0, 0)) | ASlice ys xs => OSlice (ys, xs) | ACopy => OCopy end.
-
-Fixpoint a_run (pool : list geo) (rt : Z -> Z) (orig : harea float) (o : obj (harea float) (list (tok float)))
-         (l : list (aop * aobs)) : bool :=
-  match l with
-  | [] => true
-  | (p, (mok, deq, tk, w, h, e)) :: r =>
-      let eq_ok := match p with
-                   | AEq j c12 c21 e12 e21 =>
-                       Bool.eqb (geo_eq c12 (GA (coords o) false) (pick pool j)) e12 && Bool.eqb (geo_eq c21 (pick pool j) (GA (coords o) false)) e21
-                   | _ => true end in
-      let o' := a_step rt o (a_op p) in
-      let c := coords o' in
-      eq_ok
-      && Bool.eqb (img_eqb (hash_of _ _ (area_image F64) o') (area_image F64 c)) mok
-      && Bool.eqb (img_eqb (area_image F64 c) (area_image F64 orig)) deq
-      && (h_crs c =? tk) && (h_w c =? w) && (h_h c =? h) && ext_eqb (h_ext c) e
-      && a_run pool rt orig o' r
-  end.
-Definition area_hist_case := (Z * list (Z * Z) * list (aop * aobs))%type.
-Definition chk_area_hist (pool : list geo) (c : area_hist_case) : bool :=
-  let '(i, tab, l) := c in
-  match pick pool i with
-  | GA a _ => a_run pool (lookup tab) a (new_obj a) l
-  | _ => false
-  end.
 
 (* ---- histories on a swath *)
 Inductive sop := SHash | SEq (j : Z) (e12 e21 : bool) | SAppend (j : Z) | SSlice (ys xs : oslice) (names : Z * Z) | SCopy.
